@@ -143,6 +143,87 @@ func (e *env) seen(vid string) *lib.Msg {
 	return nil
 }
 
+// connectViaUpstream: a CONNECT that is tunnelled through an upstream HTTP proxy while connect
+// header rules are configured: the request the upstream receives carries the client's Via chain
+// plus this instance's element, and the connect rules applied with their documented meaning.
+func (e *env) connectViaUpstream(ch string) bool {
+	var rec atomic.Value
+	up := lib.MustOrigin("U", "127.0.0.1:0", nil, func(oc *lib.OConn, req *lib.Msg) lib.Action {
+		if req.Method == "CONNECT" {
+			rec.Store(req)
+			oc.Write([]byte("HTTP/1.1 200 OK\r\n\r\n"))
+			return lib.Close
+		}
+		return echo(oc, req)
+	})
+	defer up.Close()
+	o := e.base()
+	o["proxy"] = []string{"http://" + up.Addr}
+	o["connect-header"] = []string{"X-Tenant: demo", "%x-lower-cn", "-X-Del-Cn", "X-Emp-Cn;"}
+	c, err := e.child(ch, o, false)
+	if err != nil {
+		e.run.Inconclusive("wiring child: " + err.Error())
+		return false
+	}
+	defer c.Stop()
+	m, _ := do(c.ProxyAddr, "CONNECT tunnel.test:443 HTTP/1.1\r\nHost: tunnel.test:443\r\nVia: 1.1 other\r\nX-Lower-Cn: v\r\nX-Del-Cn: gone\r\nX-Emp-Cn: full\r\n\r\n", "CONNECT")
+	q, _ := rec.Load().(*lib.Msg)
+	if m == nil || m.Status != 200 || q == nil {
+		e.viol("connect-upstream:not-forwarded", fmt.Sprintf("[%s] CONNECT through --proxy with --connect-header rules: response %v, upstream saw %+v", ch, m, q), nil)
+		return false
+	}
+	ok := true
+	if e.prop == "C18" {
+		v := lib.SplitList(q.Get("Via"))
+		if len(v) != 2 || v[0] != "1.1 other" || !strings.HasPrefix(v[1], "1.1 forwarder-") || len(v[1]) < len("1.1 forwarder-")+8 {
+			e.viol("connect-upstream:via", fmt.Sprintf("[%s] the CONNECT forwarded to the upstream proxy carries Via %q, want [1.1 other, 1.1 forwarder-<tag>] (connect header rules are configured)", ch, v), map[string]any{"upstream_saw": q.Fields})
+			ok = false
+		}
+	} else {
+		raw := ""
+		for _, f := range q.Fields {
+			if strings.EqualFold(f.Name, "x-lower-cn") {
+				raw += f.Name + "=" + f.Value + ";"
+			}
+		}
+		if raw != "x-lower-cn=v;" || q.Has("X-Del-Cn") || len(q.Get("X-Emp-Cn")) != 1 || q.Get1("X-Emp-Cn") != "" || len(q.Get("X-Tenant")) != 1 || q.Get1("X-Tenant") != "demo" {
+			e.viol("connect-upstream:rules", fmt.Sprintf("[%s] connect rules [X-Tenant: demo, %%x-lower-cn, -X-Del-Cn, X-Emp-Cn;] on a CONNECT sent with X-Lower-Cn: v, X-Del-Cn: gone, X-Emp-Cn: full: the upstream proxy received %+v", ch, q.Fields), nil)
+			ok = false
+		}
+	}
+	return ok
+}
+
+// chain: two instances with the default name, the first uses the second as its upstream proxy;
+// a request that passes every check of both is forwarded to the origin.
+func (e *env) chain(ch string) bool {
+	b, err := e.child(ch, e.base(), false)
+	if err != nil {
+		e.run.Inconclusive("wiring child: " + err.Error())
+		return false
+	}
+	defer b.Stop()
+	o := map[string][]string{"proxy-localhost": {"allow"}, "http-dial-attempts": {"1"}, "proxy": {"http://" + b.ProxyAddr}}
+	a, err := e.child(ch, o, false)
+	if err != nil {
+		e.run.Inconclusive("wiring child: " + err.Error())
+		return false
+	}
+	defer a.Stop()
+	vid := "chain-" + ch
+	m, _ := do(a.ProxyAddr, "GET http://origin.test/chain HTTP/1.1\r\nHost: origin.test\r\nX-Vid: "+vid+"\r\n\r\n", "GET")
+	q := e.seen(vid)
+	if m == nil || m.Status != 200 || q == nil {
+		e.viol("chain:request-not-forwarded", fmt.Sprintf("[%s] two instances with the default name chained by --proxy: the request was answered %v and the origin saw %+v", ch, m, q), nil)
+		return false
+	}
+	if v := lib.SplitList(q.Get("Via")); len(v) != 2 || v[0] == v[1] {
+		e.viol("chain:via", fmt.Sprintf("[%s] two chained instances: the origin saw Via %q, want two different elements", ch, v), nil)
+		return false
+	}
+	return true
+}
+
 // Run performs the wiring stage of property prop. Floors: wiring_checks >= 1.
 func Run(run *lib.Run, prop string) {
 	const idx = 90_000_000
@@ -154,10 +235,10 @@ func Run(run *lib.Run, prop string) {
 	e.origin = lib.MustOrigin("O", "127.0.0.1:0", nil, e.handler)
 	defer e.origin.Close()
 	scenarios := map[string][]func(string) bool{
-		"C01": {e.passthrough, e.headerRules},
+		"C01": {e.passthrough, e.headerRules, e.credentials},
 		"C02": {e.passthrough, e.eventStream, e.headerRules},
 		"C03": {e.passthrough, e.tunnelOutlivesHeaderTimeout},
-		"C04": {e.accessControl, e.timeFrame},
+		"C04": {e.accessControl, e.timeFrame, e.chain},
 		"C17": {e.accessControl, e.generatedDenyLists},
 		"C05": {e.routing},
 		"C14": {e.routing, e.pacConcurrent, e.pacEval},
@@ -166,7 +247,8 @@ func Run(run *lib.Run, prop string) {
 		"C08": {e.proxyProtocolTimeout},
 		"C11": {e.sigterm, e.shutdownTimeout},
 		"C13": {e.metrics},
-		"C18": {e.via},
+		"C18": {e.via, e.chain, e.connectViaUpstream},
+		"C16": {e.connectViaUpstream},
 		"C20": {e.limits},
 	}
 	for _, channel := range []string{"flags", "env", "config"} {
@@ -342,10 +424,13 @@ func (e *env) routing(ch string) bool {
 	pac := filepath.Join(e.run.Work, "wiring-"+ch+".pac")
 	os.WriteFile(pac, []byte(`function FindProxyForURL(url, host) {
   if (dnsDomainIs(host, ".test") && shExpMatch(host, "origin.*")) return "PROXY `+up.Addr+`";
+  if (host == "boom.test") throw new Error("boom");
+  if (host == "2001:db8::6") return "PROXY `+up.Addr+`";
   return "DIRECT";
 }`), 0o644)
 	o = e.base()
 	o["pac"] = []string{pac}
+	o["connect-to"] = append(o["connect-to"], "boom.test:80:127.0.0.1:"+e.origin.Port(), "[2001:db8::6]:80:127.0.0.1:"+e.origin.Port())
 	c, err = e.child(ch, o, false)
 	if err != nil {
 		e.run.Inconclusive("wiring child (pac): " + err.Error())
@@ -353,6 +438,15 @@ func (e *env) routing(ch string) bool {
 	}
 	check(c, "pac-proxy", "origin.test", "U")
 	check(c, "pac-direct", "direct.test", "O")
+	// the host argument of an IPv6 literal is the bare address
+	check(c, "pac-ipv6-literal-host", "[2001:db8::6]", "U")
+	// a script error fails the request, it does not pick a route
+	vidb := fmt.Sprintf("rt-%s-boom", ch)
+	mb, _ := do(c.ProxyAddr, "GET http://boom.test/r HTTP/1.1\r\nHost: boom.test\r\nX-Vid: "+vidb+"\r\n\r\n", "GET")
+	if (mb != nil && mb.Status/100 == 2) || e.seen(vidb) != nil {
+		e.viol("routing:pac-script-error-routed", fmt.Sprintf("[%s] the PAC script throws for boom.test: the request must fail, it was answered %v (origin contacted directly: %v)", ch, mb, e.seen(vidb) != nil), nil)
+		ok = false
+	}
 	c.Stop()
 	// PAC selecting the upstream for everything, direct-domains taking precedence over it
 	pac2 := filepath.Join(e.run.Work, "wiring-"+ch+"-all.pac")
@@ -386,7 +480,8 @@ func (e *env) credentials(ch string) bool {
 	defer up.Close()
 	o := e.base()
 	o["basic-auth"] = []string{"cl:clientpw"}
-	o["credentials"] = []string{"siteuser:sitepw@origin.test:80", "siteuser:sitepw@origin.test:8080", "caseuser:casepw@Origin.Test:80", "guest:guestpw@*:*"}
+	o["credentials"] = []string{"siteuser:sitepw@origin.test:80", "siteuser:sitepw@origin.test:8080", "caseuser:casepw@Origin.Test:80", "v6user:v6pw@[2001:db8::6]:80", "guest:guestpw@*:*"}
+	o["connect-to"] = append(o["connect-to"], "[2001:db8::6]:80:127.0.0.1:"+e.origin.Port())
 	c, err := e.child(ch, o, false)
 	if err != nil {
 		e.run.Inconclusive("wiring child: " + err.Error())
@@ -413,6 +508,13 @@ func (e *env) credentials(ch string) bool {
 		e.viol("credentials:host-spelling", fmt.Sprintf("[%s] an entry written for Origin.Test:80 and a request spelled the same way: the origin saw %+v", ch, q), nil)
 		ok = false
 	}
+	// a site written as an IPv6 literal, default port implied by the scheme
+	vid6 := "crv6-" + ch
+	do(c.ProxyAddr, "GET http://[2001:db8::6]/c HTTP/1.1\r\nHost: [2001:db8::6]\r\nX-Vid: "+vid6+"\r\n"+clientPA+"\r\n", "GET")
+	if q := e.seen(vid6); q == nil || q.Get1("Authorization") != "Basic djZ1c2VyOnY2cHc=" {
+		e.viol("credentials:ipv6-literal-site", fmt.Sprintf("[%s] http://[2001:db8::6]/ has an exact entry ([2001:db8::6]:80), the origin saw %+v", ch, q), nil)
+		ok = false
+	}
 	vid3 := "cr8080-" + ch
 	do(c.ProxyAddr, "GET http://origin.test:8080/c HTTP/1.1\r\nHost: origin.test:8080\r\nX-Vid: "+vid3+"\r\n"+clientPA+"\r\n", "GET")
 	if q := e.seen(vid3); q == nil || q.Get1("Authorization") != "Basic c2l0ZXVzZXI6c2l0ZXB3" {
@@ -423,6 +525,8 @@ func (e *env) credentials(ch string) bool {
 	// upstream proxy credentials from the proxy URL
 	o = e.base()
 	o["proxy"] = []string{"http://upuser:uppw@" + up.Addr}
+	// rules for other hops that share only the port, or only the host, with the upstream proxy
+	o["connect-to"] = append(o["connect-to"], "elsewhere.test:"+up.Port()+":127.0.0.1:"+e.origin.Port(), "127.0.0.1:9:127.0.0.1:"+e.origin.Port())
 	c, err = e.child(ch, o, false)
 	if err != nil {
 		e.run.Inconclusive("wiring child: " + err.Error())
@@ -431,6 +535,10 @@ func (e *env) credentials(ch string) bool {
 	do(c.ProxyAddr, "GET http://origin.test/u HTTP/1.1\r\nHost: origin.test\r\nX-Vid: cr3\r\n\r\n", "GET")
 	if v, _ := upPA.Load().([]string); len(v) != 1 || v[0] != "Basic dXB1c2VyOnVwcHc=" {
 		e.viol("credentials:upstream", fmt.Sprintf("[%s] the upstream proxy must receive exactly its own credentials, got %q", ch, v), nil)
+		ok = false
+	}
+	if q := e.seen("cr3"); q != nil && q.Has("Proxy-Authorization") {
+		e.viol("credentials:upstream-secret-at-origin", fmt.Sprintf("[%s] the origin received the upstream proxy's credentials: %+v", ch, q.Fields), nil)
 		ok = false
 	}
 	c.Stop()
